@@ -24,7 +24,7 @@ ASSUMPTIONS = [
 
 
 def generate(rng, tier):
-    return gen.gen_case(rng, {"p_demux": 0.12, "p_mixed_pair": 0.02, "p_devnull": 0.05, "p_qbase64": 0.04, "p_quiet": 0.04, "p_nonascii_name": 0.04, "p_giant": 0.0008, "p_bam": 0.05, "p_same_r2": 0.03})
+    return gen.gen_case(rng, {"p_demux": 0.12, "p_mixed_pair": 0.02, "p_devnull": 0.05, "p_qbase64": 0.04, "p_quiet": 0.04, "p_nonascii_name": 0.04, "p_giant": 0.0008, "p_bam": 0.05, "p_same_r2": 0.03, "p_devfd": 0.05})
 
 
 def evaluate(case, ctx):
